@@ -45,10 +45,12 @@ type scenario struct {
 	Restarts  int      `json:"restarts"`
 	Faults    int      `json:"faults"`
 	Conflicts int      `json:"conflicts"`
+	// OptionalFirst: the optional source is listed before the required one
+	OptionalFirst bool `json:"optionalFirst"`
 }
 
 func (sc scenario) name() string {
-	return fmt.Sprintf("template cluster=%v templates=%v sources=%s edits=%d restarts=%d faults=%d conflicts=%d", sc.Cluster, sc.Templates, sc.Sources, sc.Edits, sc.Restarts, sc.Faults, sc.Conflicts)
+	return fmt.Sprintf("template cluster=%v templates=%v sources=%s edits=%d restarts=%d faults=%d conflicts=%d optionalFirst=%v", sc.Cluster, sc.Templates, sc.Sources, sc.Edits, sc.Restarts, sc.Faults, sc.Conflicts, sc.OptionalFirst)
 }
 
 func (sc scenario) tKey() kmodel.Key {
@@ -82,6 +84,9 @@ func (sc scenario) sources() []corev1alpha1.ObjectTemplateSource {
 			s1.Namespace = world.NS
 		}
 		s2.Namespace = world.NS
+	}
+	if sc.OptionalFirst {
+		return []corev1alpha1.ObjectTemplateSource{s2, s1}
 	}
 	return []corev1alpha1.ObjectTemplateSource{s1, s2}
 }
@@ -378,6 +383,8 @@ func scenarios(quick bool) []scenario {
 		{Templates: []string{"ok"}, Sources: "cluster-kind", Edits: 2},
 		{Cluster: true, Templates: []string{"okns", "noparse"}, Sources: "normal", Edits: 3},
 		{Templates: []string{"ok"}, Sources: "normal", Edits: 2, Faults: 1, Conflicts: 1},
+		{Templates: []string{"ok", "noparse"}, Sources: "normal", Edits: 3, Restarts: 1, OptionalFirst: true},
+		{Cluster: true, Templates: []string{"okns"}, Sources: "normal", Edits: 2, OptionalFirst: true},
 	}
 	if !quick {
 		out = append(out,
@@ -391,7 +398,7 @@ func scenarios(quick bool) []scenario {
 
 func run(o checks.Opts) *report.Report {
 	rep := report.New("C18", "bfs")
-	rep.Rule = "explicit-state BFS: ObjectTemplate t (and a ClusterObjectTemplate variant) with a required source s1 (.data.x) and an optional source s2 (.data.y), template text from {renders both values, missing key, does not parse, foreign namespace, cluster-scoped kind}; events = create / edit / delete each source, switch template, reconcile, delete the template, operator restart (dynamic cache lost), garbage collector, every fault kind at every API call of a template pass and a foreign write landing before each of its writes (budgeted), with an edit budget; source values 1 / 2 / empty, the template has a conditional key and a list that shrinks; source variants: in namespace, in another namespace, cluster-scoped kind; monitor on every ObjectTemplate pass incl. the real EnqueueWatchingObjects handler over the cache's owner sets"
+	rep.Rule = "explicit-state BFS: ObjectTemplate t (and a ClusterObjectTemplate variant) with a required source s1 (.data.x) and an optional source s2 (.data.y) listed in either order, template text from {renders both values, missing key, does not parse, foreign namespace, cluster-scoped kind}; events = create / edit / delete each source, switch template, reconcile, delete the template, operator restart (dynamic cache lost), garbage collector, every fault kind at every API call of a template pass and a foreign write landing before each of its writes (budgeted), with an edit budget; source values 1 / 2 / empty, the template has a conditional key and a list that shrinks; source variants: in namespace, in another namespace, cluster-scoped kind; monitor on every ObjectTemplate pass incl. the real EnqueueWatchingObjects handler over the cache's owner sets"
 	scs := scenarios(o.Quick())
 	rep.Bounds["systems"] = len(scs)
 	for i, sc := range scs {
@@ -424,9 +431,9 @@ func init() {
 		},
 		Subs: []*checks.Sub{{Name: "bfs", Shards: func(t string) int {
 			if t == "thorough" {
-				return 8
+				return 10
 			}
-			return 6
+			return 8
 		}, Run: run, Replay: replay, Parallel: true}},
 	})
 }
